@@ -257,7 +257,7 @@ def judgeLine (j : JSt) (op : Option Op) (line : String) : JSt :=
 def judgeEnd (j : JSt) (lpc : Bool) : JSt :=
   if j.stop then j else
   let s := j.s
-  let seen := reach (s.heap.length * 4 + s.roots.length + 8) s (rootPtrs s) []
+  let seen := reach (s.size + s.heap.length + s.roots.length + 8) s (rootPtrs s) []
   let garbage := (List.range s.heap.length).filter (fun c => match s.heap[c]? with
     | some cell => cell.live && !seen.contains c
     | none => false)
